@@ -438,6 +438,7 @@ func genRobust(r *repo) string {
 			fatalf("clientTrackProcessorFMP4.initialize: expected one type switch on t.track.track.Codec, found %v", tags)
 		}
 		var kinds []string
+		var decoders [][2]string
 		defaultErr := false
 		for _, c := range cls[0] {
 			if len(c.types) == 1 && c.types[0] == "default" {
@@ -453,11 +454,26 @@ func genRobust(r *repo) string {
 			if len(c.body) != 1 || !strings.HasPrefix(rbExpr(fset, c.body[0]), "t.decodePayload = func(sample *fmp4.PartSample) ([][]byte, error) {") {
 				fatalf("clientTrackProcessorFMP4.initialize: case %v does not assign t.decodePayload", c.types)
 			}
+			body := rbExpr(fset, c.body[0])
+			dec := ""
+			for _, d := range []string{"GetAV1", "GetH264", "GetH265"} {
+				if strings.Contains(body, "return sample."+d+"()") {
+					dec = d
+				}
+			}
+			if dec == "" {
+				if !strings.Contains(body, "return [][]byte{sample.Payload}, nil") {
+					fatalf("clientTrackProcessorFMP4.initialize: case %v: unknown payload decoder: %s", c.types, body)
+				}
+				dec = "raw"
+			}
 			for _, ty := range c.types {
 				kinds = append(kinds, rbTrimType(ty, "*codecs."))
+				decoders = append(decoders, [2]string{rbTrimType(ty, "*codecs."), dec})
 			}
 		}
 		fmt.Fprintf(&b, "/-- `codecs.*` kinds with a `t.decodePayload = …` case in `clientTrackProcessorFMP4.initialize` -/\ndef fmp4DecodePayloadCases : List String := [%s]\n", quoteList(kinds))
+		fmt.Fprintf(&b, "/-- … and the mediacommon function each of them decodes a sample with (`raw`: the payload as is) -/\ndef fmp4DecoderOf : List (String × String) := [%s]\n", rbPairs(decoders))
 		fmt.Fprintf(&b, "/-- the type switch of `initialize` has a `default:` that returns an error -/\ndef fmp4InitializeDefaultErrors : Bool := %v\n", defaultErr)
 		// process: is the call of decodePayload protected by a nil test?
 		pg := rbIfGuards(fset, p.mustFunc("clientTrackProcessorFMP4", "process"))
